@@ -66,6 +66,9 @@ pub fn job(sf: Shape, sg: Shape, cfg: crate::explore::Cfg, budget: Duration, man
     case_job(c, cfg, budget, mandatory)
 }
 
+/// upper bound on the number of seeded-sample jobs generated for one run
+pub const MAX_JOBS: usize = 150_000;
+
 pub fn corner_pairs() -> Vec<(Shape, Shape)> {
     let s = Shape::new;
     vec![
@@ -103,7 +106,7 @@ pub fn jobs(tier: Tier, seed: u64) -> Vec<Job> {
     });
     for (f, g) in corner_pairs() {
         seen.insert((f, g));
-        out.push(job(f, g, cfg.clone(), per_job, true));
+        out.push(job(f, g, cfg.clone(), per_job, tier == Tier::Quick));
     }
     let (wm, xm, im, bm) = match tier {
         Tier::Quick => (2, 1, 2, 2),
@@ -119,6 +122,8 @@ pub fn jobs(tier: Tier, seed: u64) -> Vec<Job> {
         }
     }
     Rng::new(seed).shuffle(&mut pairs);
+    // the thorough box has millions of pairs: a seeded sample that a budget of this size can get through
+    pairs.truncate(MAX_JOBS);
     for (f, g) in pairs {
         out.push(job(f, g, cfg.clone(), per_job, false));
     }
